@@ -12,7 +12,8 @@
    answers, and C03_topk_unique says that any two admissible answers agree on every
    sign-/basis-free quantity when the retained spectrum is separated from the rest. *)
 From mathcomp Require Import all_ssreflect all_algebra.
-From Verif Require Import MExp MExpMx PCovR PCovRP PCovRProg PCovRExample C14Thm C03Thm.
+From Verif Require Import MExp MExpMx PCovR PCovRC03 PCovRP PCovRProg PCovRExample C14Thm C03Thm
+  PCovRC03P PCovRC03Ex.
 Import GRing.Theory Num.Theory.
 Local Open Scope ring_scope.
 
@@ -169,3 +170,191 @@ Example C03_nonvacuous :
       & forall i j, Sc i 0 != e_S 1 env j 0].
 Proof. exact ex_c03. Qed.
 Print Assumptions C03_nonvacuous.
+
+(* ==========================================================================================
+   Extension (round 3).  Model additions: Model/PCovRC03.v; proofs: Proofs/PCovRC03P.v.      *)
+
+(* ---- route independence WITHOUT "all k components retained" ---------------------------------
+   n_components may exceed the numerical rank (rank-deficient X, mixing 0 with k > n_targets):
+   the components with S_i <= tol are masked by the `s > tol` guards of both routes.  The gap is
+   only required between the rest of the spectrum of K~ and the RETAINED eigenvalues.  These
+   three theorems imply C03_gram_equal / _reconstruction_equal / _predictions_equal.          *)
+Theorem C03_gram_equal_masked :
+  forall (F : rcfType) (n m p k : nat) (env : env_mx F) (r : nat) (Uc : 'M[F]_(n, r)) (Sc : 'cV[F]_r),
+    fit_oracle n m p k env true -> fit_oracle n m p k env false ->
+    eval_mx env (kern_prog n m p) *m Uc = Uc *m diag_mx Sc^T ->
+    e_Vs n k env *m (e_Vs n k env)^T + Uc *m Uc^T = 1%:M ->
+    (forall i j, e_tol env < e_S k env j 0 -> Sc i 0 != e_S k env j 0) ->
+    centred n m env ->
+    let Tf := eval_mx env (transform_prog n m p k false (eX n m)) in
+    let Ts := eval_mx env (transform_prog n m p k true (eX n m)) in
+    Tf *m Tf^T = Ts *m Ts^T.
+Proof. exact route_gram_masked. Qed.
+Print Assumptions C03_gram_equal_masked.
+
+Theorem C03_reconstruction_equal_masked :
+  forall (F : rcfType) (n m p k : nat) (env : env_mx F) (r : nat) (Uc : 'M[F]_(n, r)) (Sc : 'cV[F]_r),
+    fit_oracle n m p k env true -> fit_oracle n m p k env false ->
+    eval_mx env (kern_prog n m p) *m Uc = Uc *m diag_mx Sc^T ->
+    e_Vs n k env *m (e_Vs n k env)^T + Uc *m Uc^T = 1%:M ->
+    (forall i j, e_tol env < e_S k env j 0 -> Sc i 0 != e_S k env j 0) ->
+    centred n m env ->
+    eval_mx env (inverse_prog n m k false (transform_prog n m p k false (eX n m)))
+    = eval_mx env (inverse_prog n m k true (transform_prog n m p k true (eX n m))).
+Proof. exact route_reconstruction_masked. Qed.
+Print Assumptions C03_reconstruction_equal_masked.
+
+Theorem C03_predictions_equal_masked :
+  forall (F : rcfType) (n m p k : nat) (env : env_mx F) (r : nat) (Uc : 'M[F]_(n, r)) (Sc : 'cV[F]_r),
+    fit_oracle n m p k env true -> fit_oracle n m p k env false ->
+    eval_mx env (kern_prog n m p) *m Uc = Uc *m diag_mx Sc^T ->
+    e_Vs n k env *m (e_Vs n k env)^T + Uc *m Uc^T = 1%:M ->
+    (forall i j, e_tol env < e_S k env j 0 -> Sc i 0 != e_S k env j 0) ->
+    centred n m env ->
+    eval_mx env (predict_t_prog n m p k false (transform_prog n m p k false (eX n m)))
+    = eval_mx env (predict_t_prog n m p k true (transform_prog n m p k true (eX n m))).
+Proof. exact route_predictions_masked. Qed.
+Print Assumptions C03_predictions_equal_masked.
+
+(* ---- "the same latent coordinates up to the sign of each component" -------------------------
+   when, in addition, every retained eigenvalue is simple among the k returned ones: the two
+   routes' transform(X) differ by a diagonal matrix of signs, entry by entry.                *)
+Theorem C03_latent_up_to_sign :
+  forall (F : rcfType) (n m p k : nat) (env : env_mx F) (r : nat) (Uc : 'M[F]_(n, r)) (Sc : 'cV[F]_r),
+    fit_oracle n m p k env true -> fit_oracle n m p k env false ->
+    eval_mx env (kern_prog n m p) *m Uc = Uc *m diag_mx Sc^T ->
+    e_Vs n k env *m (e_Vs n k env)^T + Uc *m Uc^T = 1%:M ->
+    (forall i j, e_tol env < e_S k env j 0 -> Sc i 0 != e_S k env j 0) ->
+    centred n m env ->
+    (forall i j : 'I_k, e_tol env < e_S k env j 0 -> i != j -> e_S k env i 0 != e_S k env j 0) ->
+    exists d : 'rV[F]_k,
+      (forall i, (d 0 i == 1) || (d 0 i == -1))
+      /\ eval_mx env (transform_prog n m p k false (eX n m))
+         = eval_mx env (transform_prog n m p k true (eX n m)) *m diag_mx d.
+Proof. exact latent_up_to_sign. Qed.
+Print Assumptions C03_latent_up_to_sign.
+
+(* the general statement behind both: two eigenvector families of a symmetric matrix for the same
+   eigenvalues S - the first orthonormal, the second orthonormal on the retained components only -
+   agree on every function of the retained part (the complement (Uc, Sc) stays a hypothesis, as
+   in C03_topk_unique_partial) *)
+Theorem C03_topk_unique_masked_partial :
+  forall (F : rcfType) (n k r : nat) (K : 'M[F]_n) (tol : F) (U1 U2 : 'M[F]_(n, k)) (S : 'cV[F]_k)
+         (Uc : 'M[F]_(n, r)) (Sc : 'cV[F]_r),
+    K^T = K ->
+    U1^T *m U1 = 1%:M -> K *m U1 = U1 *m diag_mx S^T ->
+    U2^T *m U2 *m dmap (g_mk tol) S = dmap (g_mk tol) S -> K *m U2 = U2 *m diag_mx S^T ->
+    K *m Uc = Uc *m diag_mx Sc^T -> U1 *m U1^T + Uc *m Uc^T = 1%:M ->
+    (forall i j, tol < S j 0 -> Sc i 0 != S j 0) ->
+    forall f : F -> F, (forall i, f (S i 0) = g_mk tol (S i 0) * f (S i 0)) ->
+    U2 *m dmap f S *m U2^T = U1 *m dmap f S *m U1^T.
+Proof. exact topk_unique_masked. Qed.
+Print Assumptions C03_topk_unique_masked_partial.
+
+(* ---- the LAPACK call the code makes: scipy.linalg.svd of the modified matrix ------------------
+   _decompose_full computes a SINGULAR VALUE decomposition M = U diag(s) V^T of the d x d
+   modified matrix and keeps the first k rows of Vt.  For mixing in [0, 1] the modified Gram
+   matrix / covariance is symmetric positive semi-definite, hence the svd contract implies the
+   eigen-equation that all theorems above take as the oracle hypothesis - also after the
+   truncation [:k] (d = k + r).  Outside [0, 1] the matrix is indefinite and this fails.      *)
+Theorem C03_svd_contract_sample :
+  forall (F : rcfType) (k r : nat) (env : env_mx F) (m p : nat)
+         (U V : 'M[F]_(k + r)) (s : 'cV[F]_(k + r)),
+    0 <= e_a env -> e_a env <= 1 ->
+    U^T *m U = 1%:M -> V^T *m V = 1%:M -> (forall i, 0 <= s i 0) ->
+    eval_mx env (kern_prog (k + r) m p) = U *m diag_mx s^T *m V^T ->
+    e_Vs (k + r) k env = lsubmx V -> e_S k env = usubmx s ->
+    svd_oracle_sample (k + r) m p k env.
+Proof. exact svd_contract_sample. Qed.
+Print Assumptions C03_svd_contract_sample.
+
+Theorem C03_svd_contract_feature :
+  forall (F : rcfType) (k r : nat) (env : env_mx F) (n p : nat)
+         (U V : 'M[F]_(k + r)) (s : 'cV[F]_(k + r)),
+    0 <= e_a env -> e_a env <= 1 ->
+    U^T *m U = 1%:M -> V^T *m V = 1%:M -> (forall i, 0 <= s i 0) ->
+    eval_mx env (cov_prog n (k + r) p) = U *m diag_mx s^T *m V^T ->
+    e_Vf (k + r) k env = lsubmx V -> e_S k env = usubmx s ->
+    svd_oracle_feature n (k + r) p k env.
+Proof. exact svd_contract_feature. Qed.
+Print Assumptions C03_svd_contract_feature.
+
+(* ---- svd_flip: multiplying the retained vectors by signs keeps the oracle hypotheses, turns the
+   projectors into pxt_ D, D ptx_, D pty_ and leaves pxt_ ptx_ unchanged (both routes)        *)
+Theorem C03_svd_flip_oracle :
+  forall (F : rcfType) (d k : nat) (M : 'M[F]_d) (V : 'M[F]_(d, k)) (S : 'cV[F]_k) (sg : 'rV[F]_k),
+    (forall i, sg 0 i * sg 0 i = 1) ->
+    V^T *m V = 1%:M -> M *m V = V *m diag_mx S^T ->
+    (V *m diag_mx sg)^T *m (V *m diag_mx sg) = 1%:M
+    /\ M *m (V *m diag_mx sg) = (V *m diag_mx sg) *m diag_mx S^T.
+Proof. exact flip_oracle. Qed.
+Print Assumptions C03_svd_flip_oracle.
+
+Theorem C03_svd_flip_sample :
+  forall (F : rcfType) (d k : nat) (V : 'M[F]_(d, k)) (S : 'cV[F]_k) (sg : 'rV[F]_k),
+    (forall i, sg 0 i * sg 0 i = 1) ->
+    forall (m p : nat) (X : 'M[F]_(d, m)) (Y Yh : 'M[F]_(d, p)) (W : 'M[F]_(m, p)) (a tol : F),
+    let D := diag_mx sg in
+    [/\ s_pxt X Yh W a tol (V *m D) S = s_pxt X Yh W a tol V S *m D,
+        s_ptx X tol (V *m D) S = D *m s_ptx X tol V S,
+        s_pty Y tol (V *m D) S = D *m s_pty Y tol V S
+      & s_pxt X Yh W a tol (V *m D) S *m s_ptx X tol (V *m D) S
+        = s_pxt X Yh W a tol V S *m s_ptx X tol V S].
+Proof. exact flip_sample. Qed.
+Print Assumptions C03_svd_flip_sample.
+
+Theorem C03_svd_flip_feature :
+  forall (F : rcfType) (m k : nat) (V : 'M[F]_(m, k)) (S : 'cV[F]_k) (sg : 'rV[F]_k),
+    (forall i, sg 0 i * sg 0 i = 1) ->
+    forall (n p : nat) (X : 'M[F]_(n, m)) (Y : 'M[F]_(n, p)) (tol : F)
+           (UC : 'M[F]_m) (vC : 'cV[F]_m) (Csq : 'M[F]_m),
+    let D := diag_mx sg in
+    [/\ f_pxt tol UC vC (V *m D) S = f_pxt tol UC vC V S *m D,
+        f_ptx tol (V *m D) S Csq = D *m f_ptx tol V S Csq,
+        f_pty X Y tol UC vC (V *m D) S = D *m f_pty X Y tol UC vC V S
+      & f_pxt tol UC vC (V *m D) S *m f_ptx tol (V *m D) S Csq
+        = f_pxt tol UC vC V S *m f_ptx tol V S Csq].
+Proof. exact flip_feature. Qed.
+Print Assumptions C03_svd_flip_feature.
+
+(* ---- the ridge regressors inside the model: normal equations with alpha != 0 put the weights
+   into the row space of X (Pi = C^-1/2 X^T X C^-1/2, C03_isqrt_spec), which is what makes the
+   sample-space projectors - they contain W - act on NEW data like the feature-space ones    *)
+Theorem C03_ridge_weights_in_rowspace :
+  forall (F : rcfType) (n m p : nat) (env : env_mx F),
+    0 <= e_tol env -> eigh_oracle n m env -> e_alpha env != 0 ->
+    eval_mx env (ridge_res_prog n m p) = 0 ->
+    let A := eval_mx env (cisqrt_prog m) in
+    A *m ((e_X n m env)^T *m e_X n m env) *m A *m e_W m p env = e_W m p env.
+Proof. exact ridge_rowspace. Qed.
+Print Assumptions C03_ridge_weights_in_rowspace.
+
+Theorem C03_ridge_formula :
+  forall (F : rcfType) (n m p : nat) (env : env_mx F),
+    eval_mx env (ridge_res_prog n m p)
+    = ((e_X n m env)^T *m e_X n m env + e_alpha env *: 1%:M) *m e_W m p env
+      - (e_X n m env)^T *m e_Y n p env.
+Proof. exact ridge_res_formula. Qed.
+Print Assumptions C03_ridge_formula.
+
+(* ---- non-vacuity of the new hypotheses ----------------------------------------------------- *)
+Example C03_ext_nonvacuous :
+  forall (F : rcfType) (mix : F), exists (env : env_mx F) (Uc : 'M[F]_(2, 1)) (Sc : 'cV[F]_1),
+    [/\ [/\ centred 2 1 env, fit_oracle 2 1 1 1 env true, fit_oracle 2 1 1 1 env false
+          & e_a env = mix /\ e_X 2 1 env != 0],
+        eval_mx env (kern_prog 2 1 1) *m Uc = Uc *m diag_mx Sc^T,
+        e_Vs 2 1 env *m (e_Vs 2 1 env)^T + Uc *m Uc^T = 1%:M,
+        forall i j, e_tol env < e_S 1 env j 0 -> Sc i 0 != e_S 1 env j 0
+      & forall i j : 'I_1, e_tol env < e_S 1 env j 0 -> i != j -> e_S 1 env i 0 != e_S 1 env j 0].
+Proof. exact ex_c03_ext. Qed.
+Print Assumptions C03_ext_nonvacuous.
+
+Example C03_svd_nonvacuous :
+  forall (F : rcfType) (mix : F), 0 <= mix -> mix <= 1 ->
+    exists (env : env_mx F) (U V : 'M[F]_(1 + 1)) (s : 'cV[F]_(1 + 1)),
+      [/\ 0 <= e_a env /\ e_a env <= 1, U^T *m U = 1%:M /\ V^T *m V = 1%:M,
+          forall i, 0 <= s i 0,
+          eval_mx env (kern_prog (1 + 1) 1 1) = U *m diag_mx s^T *m V^T
+        & e_Vs (1 + 1) 1 env = lsubmx V /\ e_S 1 env = usubmx s].
+Proof. exact ex_c03_svd. Qed.
+Print Assumptions C03_svd_nonvacuous.
